@@ -232,7 +232,7 @@ func checkC09(p *Prog, r *Report) {
 			r.OK(kp("STATE", "context-free-foreign-object#none"), "block processing depends on the transaction, the block header and the stores only: objects implemented outside the module are consulted with a Context (reviewed exceptions: the codecs, the params subspace table)", "x/*, app/*",
 				fmt.Sprintf("%d functions in scope; %d context-free calls on held foreign objects, all on reviewed receiver types", len(scope), len(allowed)))
 		}
-		r.Floor("context-free-calls-on-reviewed-foreign-objects", len(allowed), 5)
+		r.Floor("context-free-calls-on-reviewed-foreign-objects", len(allowed), 2)
 	}
 
 	// D5c committed stores only: what a memory or transient store holds depends on when this node last restarted / committed, and
